@@ -14,6 +14,7 @@ What is NOT proved: fuel adequacy of the mutual recursion ApplyJSONPath/eval/get
 exhaustion and wall-clock bounds (runtime facts; watchdog in the harness).
 -/
 import Ajson.Proofs.NoPanic
+import Ajson.Proofs.UnpackTotal
 
 namespace Ajson.Props.C11
 open Ajson Ajson.Proofs Ajson.Heap
@@ -113,5 +114,14 @@ theorem popOps_conserves (t : OpTable) (cur : Bytes) : ∀ (stack out : List Byt
       have := ih (out ++ [top])
       simp only [List.length_append, List.length_cons, List.length_nil, if_true] at this ⊢; omega
     | false => simp
+
+/-- **`Unpack` is bounded and total up to range errors**: on every sound acyclic heap — every parsed document and whatever steps and
+reads make of it — the fuel "number of nodes" suffices for `Unpack` of every node (the subtree of a node of such a heap is a tree of
+allocated nodes of depth at most the number of nodes: `clone_hypothesis`), so `Unpack` never runs out of fuel, never panics, and
+fails only where a scalar has no value: if every numeric, string and bool node has a value of its type (`ScalarsOK` — false only for
+a number literal outside the float64 range or a string that does not unquote, which the parser rejects), `Unpack` answers. -/
+theorem C11_unpack_total {h : Heap} (hs : Proofs.Struct h) (ha : Proofs.Acyc h) (sc : Proofs.ScalarsOK h) (n : Nat) (hn : n < h.size) :
+    (∃ v, (h.unpack h.size n).2 = .ok v) ∧ ∃ v, (h.unpack (h.size + 1) n).2 = .ok v :=
+  Proofs.unpack_total hs ha sc n hn
 
 end Ajson.Props.C11
